@@ -265,7 +265,7 @@ func (g *rgen[K, V]) genArg(letter byte, self int, ec byte) (any, bool) {
 }
 
 func (g *rgen[K, V]) run(st Step) bool {
-	var line, ok = g.in.guarded(g.sid, st, g.wd)
+	var line, ok = g.in.guarded(g.sid, st, g.wd, false)
 	g.out(line)
 	if !ok {
 		g.alive = false
